@@ -14,7 +14,7 @@ def determinise(ck):
 
 
 def gen_texts(ck, maxcore, nsim, keep):
-    r = ck.tlc("LexTextGen", constants={"MaxCore": maxcore}, workers=4, count=False, timeout=1200)
+    r = ck.tlc("LexTextGen", constants={"MaxCore": maxcore, "PairSeps": 3 if maxcore <= 2 else 5}, workers=4, count=False, timeout=1200)
     if "GENERATED" not in r.out:
         raise vp.Infra("LexTextGen failed:\n" + r.out[-2000:])
     gen = os.path.join(ck.work, "tla", "gen_texts.ndjson")
